@@ -33,6 +33,7 @@ def rerun(ctx, rec):
     d = ctx.sub("replay")
     i, o = os.path.join(d, "in.ndjson"), os.path.join(d, "out.ndjson")
     inp = {k: rec[k] for k in ("ev", "id", "mode", "file", "sel", "ports")}
+    inp["prior"] = rec.get("prior", [])
     inp.update(tracks=[], sends=[], rerr="", err="", panic="", timeout=False, dur_us=0, feat=rec.get("feat", []))
     open(i, "w").write(json.dumps(inp) + "\n")
     ctx.run([vh, "player-rerun", "-in", i, "-out", o], timeout=600)
